@@ -1055,6 +1055,12 @@ func (m *Machine) conv(t_dst, t_src types.Type, x value) value {
 		}
 
 	case *types.Basic:
+		if _, isLit := x.(numLit); isLit {
+			if b, ok := ut_dst.(*types.Basic); ok && b.Kind() == types.String {
+				return x
+			}
+			unsupported("conversion of a numeric literal text to %s", t_dst)
+		}
 		// string -> []byte, []rune, string
 		if isString(x) {
 			switch ut_dst := ut_dst.(type) {
